@@ -11,11 +11,13 @@ import (
 	"io"
 	"net"
 	"strings"
+	"sync"
 	"time"
 
 	dryio "github.com/xelaj/go-dry/ioutil"
 
 	"github.com/xelaj/mtproto/internal/mode"
+	"github.com/xelaj/mtproto/internal/mtproto/messages"
 	"github.com/xelaj/mtproto/internal/transport"
 )
 
@@ -159,14 +161,26 @@ func c08ReadSegs(segs [][]byte) string {
 	if err != nil {
 		return "mode=err:" + classifyStreamErr(err)
 	}
-	var out []string
+	// the receiver keeps every message exactly as ReadMsg returned it (no copy, no rendering) until the
+	// stream has ended: a message that was delivered must still be that message when the next ones have
+	// been read
+	var held [][]byte
 	for {
 		msg, err := m.ReadMsg()
 		if err != nil {
-			return fmt.Sprintf("mode=%s msgs=%s end=%s", modeName(m), showList(out), classifyStreamErr(err))
+			return fmt.Sprintf("mode=%s msgs=%s end=%s", modeName(m), showHeld(held), classifyStreamErr(err))
 		}
-		out = append(out, showBytes(msg))
+		held = append(held, msg)
 	}
+}
+
+// showHeld renders messages that were held untouched until the end of their stream.
+func showHeld(held [][]byte) string {
+	out := make([]string, len(held))
+	for i, m := range held {
+		out[i] = showBytes(m)
+	}
+	return showList(out)
 }
 
 // c08DetectTCP: the peer's side of the property on the repository's own connection type: the stream
@@ -204,13 +218,13 @@ func c08DetectTCP(segs [][]byte) string {
 	if err != nil {
 		res = "mode=err:" + classifyStreamErr(err)
 	} else {
-		var out []string
+		var held [][]byte // kept as returned until the stream has ended, see c08ReadSegs
 		for res == "" {
 			msg, err := m.ReadMsg()
 			if err != nil {
-				res = fmt.Sprintf("mode=%s msgs=%s end=%s", modeName(m), showList(out), classifyStreamErr(err))
+				res = fmt.Sprintf("mode=%s msgs=%s end=%s", modeName(m), showHeld(held), classifyStreamErr(err))
 			} else {
-				out = append(out, showBytes(msg))
+				held = append(held, msg)
 			}
 		}
 	}
@@ -281,13 +295,17 @@ func c08Tcp(md string, splits string, items []string) string {
 		return "dial-error:" + err.Error()
 	}
 	defer t.Close()
+	// what ReadMsg delivered is kept as delivered (the message objects themselves) and rendered only when the
+	// stream has ended; out[i] == "" marks the place of heldMsgs' next entry
 	var out []string
+	var heldMsgs []messages.Common
 	end := ""
 	for end == "" {
 		msg, err := t.ReadMsg()
 		switch {
 		case err == nil:
-			out = append(out, fmt.Sprintf("msg:%d:%s", uint64(int64(msg.GetMsgID())), showBytes(msg.GetMsg())))
+			out = append(out, "")
+			heldMsgs = append(heldMsgs, msg)
 		case err == io.EOF:
 			end = "eof"
 		default:
@@ -311,8 +329,239 @@ func c08Tcp(md string, splits string, items []string) string {
 		}
 	}
 	<-done
+	for i := range out {
+		if out[i] == "" {
+			msg := heldMsgs[0]
+			heldMsgs = heldMsgs[1:]
+			out[i] = fmt.Sprintf("msg:%d:%s", uint64(int64(msg.GetMsgID())), showBytes(msg.GetMsg()))
+		}
+	}
 	return fmt.Sprintf("items=%s end=%s", showList(out), end)
 }
+
+// ---- deadlines: one direction's timing must not reach the other direction ---------------------------
+//
+// c08.dl <md> <variant> <timeout_ms> <idle_ms> <down> <up>: the repository's own connection type
+// (transport.NewTCP with a SHORT Timeout) under mode.New(md). The peer (this harness, other end of the
+// loopback connection) sends the messages `down` framed by the spec framer; the client writes the messages
+// `up` through mode.WriteMsg; what differs between the variants is WHEN:
+//
+//	widle  client reads `down` to end of stream, stays idle for idle_ms (> timeout), then writes `up`
+//	wpend  client reads `down`, leaves one more ReadMsg pending in another goroutine (it runs into the read
+//	       timeout: nothing arrives), stays idle, then writes `up`
+//	wslow  as wpend, but `up` is written at once and is more than the socket buffers take while the peer does
+//	       not drain for idle_ms: the writes are still blocked when the pending read's time is up
+//	ridle  client writes `up` (peer drains), stays idle, then reads `down` to end of stream
+//	rslow  client writes `up` in another goroutine, blocked as in wslow, and reads `down` after idle_ms,
+//	       while that write is still blocked
+//
+// Result: "rx: <what the client read> | tx: <what the peer received>", both in the form of c08.rt, the
+// messages held as delivered until both streams have ended; plus " fault=…" when a WriteMsg returned an error.
+// Whatever the timing, the peer must receive exactly the frames written and the client exactly the frames sent.
+func c08Deadline(md, variant string, timeoutMs, idleMs int, down, up [][]byte) string {
+	timeout := time.Duration(timeoutMs) * time.Millisecond
+	idle := time.Duration(idleMs) * time.Millisecond
+	switch variant {
+	case "widle", "wpend", "wslow", "ridle", "rslow":
+	default:
+		return "bad-op"
+	}
+	halfClose := variant == "widle" || variant == "ridle" || variant == "rslow" // the client reads `down` to end of stream
+	slow := variant == "wslow" || variant == "rslow"
+
+	var downStream []byte
+	for _, m := range down {
+		downStream = append(downStream, specFrame(md, m)...)
+	}
+	sent := make(chan struct{})     // the peer has handed `down` to the kernel
+	writing := make(chan time.Time, 1) // the client is about to start its (slow) writes
+	type peerRes struct {
+		raw []byte
+		err string
+	}
+	peerDone := make(chan peerRes, 1)
+	go func() {
+		var res peerRes
+		defer func() { peerDone <- res }()
+		conn, err := c08Listener.Accept()
+		if err != nil {
+			close(sent)
+			res.err = "accept"
+			return
+		}
+		tc := conn.(*net.TCPConn)
+		defer tc.Close()
+		_ = tc.SetNoDelay(true)
+		_ = tc.SetDeadline(time.Now().Add(60 * time.Second)) // the harness's own end never waits for ever
+		sendDown := func() {
+			if len(downStream) > 0 {
+				_, _ = tc.Write(downStream)
+			}
+			if halfClose {
+				_ = tc.CloseWrite()
+			}
+		}
+		if len(downStream) <= 32<<10 { // fits the socket buffers: in the kernel before the client's first Read
+			sendDown()
+			close(sent)
+		} else {
+			close(sent)
+			sendDown()
+		}
+		if slow {
+			if t0, ok := <-writing; ok {
+				time.Sleep(time.Until(t0.Add(idle + idle/3)))
+			}
+		}
+		res.raw, _ = io.ReadAll(tc)
+	}()
+
+	ctx, cancel := context.WithCancel(context.Background())
+	defer cancel()
+	conn, err := transport.NewTCP(transport.TCPConnConfig{Ctx: ctx, Host: c08Listener.Addr().String(), Timeout: timeout})
+	if err != nil {
+		close(writing)
+		return "dial-error:" + err.Error()
+	}
+	m, err := mode.New(variantOf(md), conn)
+	if err != nil {
+		close(writing)
+		conn.Close()
+		return "new:" + err.Error()
+	}
+	<-sent
+
+	endOf := func(err error) string {
+		if err != io.EOF && strings.Contains(err.Error(), "i/o timeout") {
+			return "timeout"
+		}
+		return classifyStreamErr(err)
+	}
+	var held [][]byte // as delivered, rendered when everything is over
+	rxEnd := ""
+	readDown := func() {
+		if halfClose {
+			for {
+				msg, err := m.ReadMsg()
+				if err != nil {
+					rxEnd = endOf(err)
+					return
+				}
+				held = append(held, msg)
+			}
+		}
+		for range down {
+			msg, err := m.ReadMsg()
+			if err != nil {
+				rxEnd = endOf(err)
+				return
+			}
+			held = append(held, msg)
+		}
+	}
+	fault := ""
+	writeUp := func() {
+		for i, msg := range up {
+			if err := m.WriteMsg(msg); err != nil {
+				fault = fmt.Sprintf("write#%d:%s", i, endOf(err))
+				return
+			}
+		}
+	}
+	// one more ReadMsg with nothing to arrive: it ends with the read timeout (and must end nothing else)
+	pendingRead := func() chan string {
+		ch := make(chan string, 1)
+		go func() {
+			msg, err := m.ReadMsg()
+			if err != nil {
+				ch <- endOf(err)
+			} else {
+				ch <- "unexpected-message:" + showBytes(msg)
+			}
+		}()
+		return ch
+	}
+	waitPending := func(ch chan string) {
+		select {
+		case rxEnd = <-ch:
+		case <-time.After(timeout + 10*time.Second):
+			rxEnd = "pending-read-did-not-end"
+		}
+	}
+
+	switch variant {
+	case "widle":
+		close(writing)
+		readDown()
+		time.Sleep(idle)
+		writeUp()
+	case "wpend":
+		close(writing)
+		readDown()
+		if rxEnd == "" {
+			ch := pendingRead()
+			time.Sleep(idle)
+			writeUp()
+			waitPending(ch)
+		}
+	case "wslow":
+		readDown()
+		if rxEnd == "" {
+			ch := pendingRead()
+			t0 := time.Now()
+			writing <- t0
+			writeUp()
+			c08NoteBlocked(variant, time.Since(t0) >= idle)
+			waitPending(ch)
+		} else {
+			close(writing)
+		}
+	case "ridle":
+		close(writing)
+		writeUp()
+		time.Sleep(idle)
+		readDown()
+	case "rslow":
+		wdone := make(chan struct{})
+		t0 := time.Now()
+		writing <- t0
+		go func() {
+			defer close(wdone)
+			writeUp()
+			c08NoteBlocked(variant, time.Since(t0) >= idle)
+		}()
+		time.Sleep(idle)
+		readDown()
+		<-wdone
+	}
+	conn.Close()
+	pr := <-peerDone
+
+	tx := "peer:" + pr.err
+	if pr.err == "" {
+		tx = c08ReadSegs([][]byte{pr.raw})
+	}
+	res := fmt.Sprintf("rx: mode=%s msgs=%s end=%s | tx: %s", md, showHeld(held), rxEnd, tx)
+	if fault != "" {
+		res += " fault=" + fault
+	}
+	return res
+}
+
+// c08NoteBlocked counts, for the evidence file, in how many slow-writer operations the writes really were
+// still in progress when the idle time was over (it depends on the machine's socket buffer limits).
+func c08NoteBlocked(variant string, blocked bool) {
+	c08BlockedMu.Lock()
+	defer c08BlockedMu.Unlock()
+	k := "c08_" + variant + "_writes_blocked_past_idle"
+	if !blocked {
+		k = "c08_" + variant + "_writes_not_blocked"
+	}
+	n, _ := theG.Extra[k].(int)
+	theG.Extra[k] = n + 1
+}
+
+var c08BlockedMu sync.Mutex
 
 func c08Exec(op []string) string {
 	switch op[0] {
@@ -335,6 +584,11 @@ func c08Exec(op []string) string {
 		return c08DetectTCP(splitAt(b, parseSplits(op[2], len(b))))
 	case "c08.tcp":
 		return c08Tcp(op[1], op[2], op[3:])
+	case "c08.dl":
+		if len(op) != 7 {
+			return "bad-op"
+		}
+		return c08Deadline(op[1], op[2], atoi(op[3]), atoi(op[4]), parseBytesList(op[5]), parseBytesList(op[6]))
 	}
 	return "bad-op"
 }
@@ -375,6 +629,34 @@ func c08Judge(op []string, out string) string {
 		exp := fmt.Sprintf("mode=%s msgs=%s end=eof", md, showList(shown))
 		if out != exp {
 			return "messages read back differ from the messages written: want " + clip(exp)
+		}
+	case "c08.dl":
+		if len(op) != 7 {
+			return ""
+		}
+		md, variant := op[1], op[2]
+		show := func(tok string) (string, bool) {
+			var shown []string
+			for _, m := range parseBytesList(tok) {
+				if !specFits(md, m) || (md == "a" && len(m)%4 != 0) {
+					return "", false
+				}
+				shown = append(shown, showBytes(m))
+			}
+			return showList(shown), true
+		}
+		down, ok1 := show(op[5])
+		up, ok2 := show(op[6])
+		if !ok1 || !ok2 {
+			return ""
+		}
+		rxEnd := "eof"
+		if variant == "wpend" || variant == "wslow" {
+			rxEnd = "timeout" // the extra read with nothing to arrive ends with the read timeout, and only it
+		}
+		exp := fmt.Sprintf("rx: mode=%s msgs=%s end=%s | tx: mode=%s msgs=%s end=eof", md, down, rxEnd, md, up)
+		if out != exp {
+			return "over the repository's TCP connection (read timeout " + op[3] + " ms, idle " + op[4] + " ms) the frames received differ from the frames written — the timing of one direction reached the other: want " + clip(exp)
 		}
 	case "c08.tcp":
 		var shown []string
@@ -544,6 +826,70 @@ func c08Gen(g *G) {
 		}
 		g.Emit(fmt.Sprintf("c08.rt %s %s %s", md, splits, showList(toks)), "rt-long", "mode="+md)
 	}
+	// (b'') several short frames in one stream (1..64 bytes: acks, pongs, 4-byte transport error codes), next to
+	// each other and interleaved with long and empty ones. Every read path keeps the messages as ReadMsg returned
+	// them until the stream has ended, so a message that changes after delivery is seen.
+	codeTok := func() string {
+		b := make([]byte, 4)
+		binary.LittleEndian.PutUint32(b, uint32(int32(r.Pick(-404, -429, -444, -403, 404, -1, 1, 0))))
+		return hexD(b)
+	}
+	shortStream := func(md string) (toks []string, total int) {
+		k := 2 + r.Intn(7)
+		total = len(specAnnounce(md))
+		for j := 0; j < k; j++ {
+			var t string
+			switch r.Intn(7) {
+			case 0:
+				t = tok(4 * r.Pick(17, 18, 32, 126, 127, 128, 250))
+			case 1:
+				t = tok(0)
+			case 2:
+				t = codeTok()
+			default:
+				if md == "i" && r.Intn(3) > 0 {
+					t = tok(1 + r.Intn(64)) // the intermediate format carries any length
+				} else {
+					t = tok(4 * (1 + r.Intn(16)))
+				}
+			}
+			toks = append(toks, t)
+			total += len(specFrame(md, parseBytes(t)))
+		}
+		return
+	}
+	randCuts := func(total int) string {
+		switch r.Intn(4) {
+		case 0:
+			return "-"
+		case 1:
+			if total <= 6000 {
+				return "each"
+			}
+			return "-"
+		}
+		cs := map[int]bool{}
+		for c := 0; c < 1+r.Intn(12); c++ {
+			cs[1+r.Intn(total-1)] = true
+		}
+		var cl []int
+		for c := range cs {
+			cl = append(cl, c)
+		}
+		sortInts(cl)
+		return cutsStr(cl)
+	}
+	nShort := g.N(80, 2000)
+	for i := 0; i < nShort; i++ {
+		md := []string{"a", "i"}[r.Intn(2)]
+		toks, total := shortStream(md)
+		g.Emit(fmt.Sprintf("c08.rt %s %s %s", md, randCuts(total), showList(toks)), "rt-short-frames", "mode="+md)
+	}
+	for i := 0; i < g.N(8, 200); i++ {
+		md := []string{"a", "i"}[i%2]
+		toks, total := shortStream(md)
+		g.Emit(fmt.Sprintf("c08.det %s %s %s", md, randCuts(total), showList(toks)), "det-tcp-short-frames", "mode="+md)
+	}
 	// (c) malformed / truncated streams: every prefix of valid streams, wrong announcements
 	for _, md := range []string{"a", "i"} {
 		for _, set := range [][]int{{4, 0, 8}, {508, 4}} {
@@ -623,6 +969,100 @@ func c08Gen(g *G) {
 			splits = cutsStr(cl)
 		}
 		g.Emit(fmt.Sprintf("c08.tcp %s %s %s", md, splits, strings.Join(items, " ")), "tcp", "mode="+md)
+	}
+	// several small items (messages of 20..64 bytes, error codes) in one stream, a long one now and then
+	for i := 0; i < g.N(30, 600); i++ {
+		md := []string{"a", "i"}[r.Intn(2)]
+		k := 3 + r.Intn(6)
+		var items []string
+		total := 0
+		for j := 0; j < k; j++ {
+			switch r.Intn(6) {
+			case 0:
+				items = append(items, "c:"+codes[r.Intn(len(codes))])
+				total += 8
+			default:
+				l := 4 * r.Intn(12)
+				if r.Intn(8) == 0 {
+					l = 4 * r.Pick(12, 13, 100, 126)
+				}
+				items = append(items, fmt.Sprintf("m:%d:%s", r.U64()&^3|uint64(r.Pick(1, 3)), tok(l)))
+				total += 24 + l
+			}
+		}
+		g.Emit(fmt.Sprintf("c08.tcp %s %s %s", md, randCuts(total), strings.Join(items, " ")), "tcp-short-items", "mode="+md)
+	}
+	// (e) deadlines: the repository's connection with a short read timeout; reads, idle time longer than the
+	// timeout (with and without a read pending), then writes of several lengths — and the mirror image; writes
+	// that stay blocked past the timeout because the peer drains late. Only the reads are bounded by Timeout.
+	{
+		const timeoutMs, idleMs = 200, 300
+		several := func(md string) string {
+			var toks []string
+			for _, l := range []int{504, 508, 512, 0, 4} {
+				toks = append(toks, tok(l))
+			}
+			for j := 0; j < 1+r.Intn(4); j++ {
+				if md == "i" && r.Intn(2) == 0 {
+					toks = append(toks, tok(1+r.Intn(700)))
+				} else {
+					toks = append(toks, tok(4*r.Pick(1, 2, 16, 17, 126, 127, 128, 1000, 16384)))
+				}
+			}
+			for j := len(toks) - 1; j > 0; j-- { // shuffle
+				k := r.Intn(j + 1)
+				toks[j], toks[k] = toks[k], toks[j]
+			}
+			return showList(toks)
+		}
+		few := func(md string) string {
+			var toks []string
+			for j := 0; j < 1+r.Intn(3); j++ {
+				toks = append(toks, tok(4*r.Pick(0, 1, 2, 5, 16, 127)))
+			}
+			return showList(toks)
+		}
+		big := func() string { // more than a loopback connection buffers when the peer does not read (tcp_wmem max + window)
+			var toks []string
+			for total := 0; total < 5<<20; {
+				l := r.Pick(1<<20, 1<<20, 1<<19, 1<<18)
+				toks = append(toks, tok(l))
+				total += l
+			}
+			toks = append(toks, tok(508), tok(0), tok(4))
+			return showList(toks)
+		}
+		emit := func(md, variant string) {
+			var down, up string
+			switch variant {
+			case "widle", "wpend":
+				down, up = few(md), several(md)
+			case "wslow":
+				down, up = few(md), big()
+			case "ridle":
+				down, up = several(md), few(md)
+			case "rslow":
+				down, up = several(md), big()
+			}
+			g.Emit(fmt.Sprintf("c08.dl %s %s %d %d %s %s", md, variant, timeoutMs, idleMs, down, up), "deadline-"+variant, "mode="+md)
+		}
+		mds := []string{"a", "i"}
+		if r.Bool() {
+			mds = []string{"i", "a"}
+		}
+		for rep := 0; rep < g.N(1, 4); rep++ {
+			for _, md := range mds {
+				for _, v := range []string{"widle", "wpend", "ridle"} {
+					emit(md, v)
+				}
+			}
+			emit(mds[0], "wslow")
+			emit(mds[1], "rslow")
+			if g.Thorough() {
+				emit(mds[1], "wslow")
+				emit(mds[0], "rslow")
+			}
+		}
 	}
 	// the error-code frame named by the property
 	for _, md := range []string{"a", "i"} {
